@@ -39,13 +39,15 @@ def build(bins, timeout=1500):
     for b in bins:
         cmd += ["--bin", b]
     env = dict(os.environ, CARGO_NET_OFFLINE="true")
+    tdir = os.environ.get("VERIF_TARGET_DIR", os.path.join(HARNESS, "target"))
+    env["CARGO_TARGET_DIR"] = tdir
     p = subprocess.run(cmd, cwd=HARNESS, env=env, stdout=subprocess.PIPE, stderr=subprocess.STDOUT,
                        text=True, timeout=timeout)
     if p.returncode != 0:
         log(p.stdout[-4000:])
         raise ToolError("harness build failed")
     log("[build] %s ok in %.1fs" % (",".join(bins), time.time() - t0))
-    return {b: os.path.join(HARNESS, "target", "debug", b) for b in bins}
+    return {b: os.path.join(tdir, "debug", b) for b in bins}
 
 
 def run_bin(path, args, timeout=1800, env=None, cwd=None, ok_codes=(0,)):
